@@ -121,6 +121,22 @@ fn main() {
     if let Ok(rd) = std::fs::read_dir("/verif/replays/regress") {
         let mut files: Vec<_> = rd.filter_map(|e| e.ok()).map(|e| e.path()).filter(|p| p.file_name().and_then(|n| n.to_str()).map(|n| n.starts_with(&format!("{}-", id)) && n.ends_with(".json")).unwrap_or(false)).collect();
         files.sort();
+        // saved libFuzzer inputs (<ID>-fuzz-<target>-<hash>.bin) are regression cases too
+        if let Ok(rd) = std::fs::read_dir("/verif/replays/regress") {
+            let mut bins: Vec<_> = rd.filter_map(|e| e.ok()).map(|e| e.path()).filter(|p| p.file_name().and_then(|n| n.to_str()).map(|n| n.starts_with(&format!("{}-fuzz-", id)) && n.ends_with(".bin")).unwrap_or(false)).collect();
+            bins.sort();
+            for path in bins {
+                let name = path.file_name().and_then(|n| n.to_str()).unwrap_or("").to_string();
+                let target = name.split('-').nth(2).unwrap_or("").to_string();
+                let Ok(data) = std::fs::read(&path) else { continue };
+                regress_n += 1;
+                if let Err(v) = vh::fuzzglue::judge(&target, &data) {
+                    ctx.say(&format!("  regression fuzz input {} FAILS sig={} detail={}", name, v.sig, v.detail));
+                    ctx.say(&format!("VIOLATION property={} replay={}", id, path.display()));
+                    regress_failed = true;
+                }
+            }
+        }
         for path in files {
             let Ok(text) = std::fs::read_to_string(&path) else { continue };
             let Ok(v) = serde_json::from_str::<serde_json::Value>(&text) else { continue };
